@@ -149,6 +149,8 @@ def run(ctx):
                       sample={"eq": f_eq.key, "ne": f_ne.key})
         # ---------------- K4 (also gives the conversion's key)
         s2n = strnum.check(ctx, facts, cfg, clause="K4")
+        if f_eq is not None:
+            strnum.container_elements_converted(ctx, facts, [f_eq.key] + ([f_ne.key] if f_ne is not None else []), cfg, "K2.container-through-string-form")
         # the string form through which containers are compared (structure as in C16 K4)
         from .c16 import to_string_role, string_form_clauses
         string_form_clauses(ctx, facts, roles, to_string_role(facts), cfg, "K5")
